@@ -237,6 +237,34 @@ def run(ctx):
                         "imported a same-named implementer: %r then %r" % (t1, t2),
                         {"schema_xml": F.render_xml(sd), "loads": [t1, t2], "second_load": o2[:2], "fresh_schema": f2[:2]},
                         signature="C12:history:ok-expected-reject:after-import")
+        # a schema-level <import src=…> that brings a same-named, NON-implementing type: the name may not be redefined, so
+        # the slot can never come to admit the imported type under the implementer's name
+        import io
+        import os
+        import tempfile
+        import ZConfig
+        with tempfile.TemporaryDirectory(prefix="zcv-c12-") as td:
+            open(os.path.join(td, "lib.xml"), "w").write("<schema><sectiontype name='cache'><key name='dir'/></sectiontype></schema>")
+            for order in ("define-then-import", "import-then-define"):
+                own = "<sectiontype name='cache' implements='storage'><key name='size'/></sectiontype>"
+                imp = "<import src='lib.xml'/>"
+                body = (own + imp) if order == "define-then-import" else (imp + own)
+                xml = "<schema><abstracttype name='storage'/>%s<multisection type='storage' name='*' attribute='st'/></schema>" % body
+                open(os.path.join(td, "main.xml"), "w").write(xml)
+                ctx.evaluations += 1
+                try:
+                    sch = ZConfig.loadSchema(os.path.join(td, "main.xml"))
+                except ZConfig.SchemaError:
+                    continue
+                except Exception as e:
+                    ctx.violate("schema with a redefined imported type raised %s" % type(e).__name__, {"schema_xml": xml, "order": order},
+                                signature="C12:import-src-redefinition:exc")
+                    continue
+                o1, _, _ = cfgrun.real_load(sch, "<cache>\ndir /x\n</cache>\n", cfgstream.URL)
+                ctx.violate("a type name defined twice (own implementer and an <import src> of a non-implementing type, %s) was accepted; "
+                            "the slot of 'storage' then gives %r for a <cache> section with the imported type's key" % (order, o1[:2]),
+                            {"schema_xml": xml, "lib": "<sectiontype name='cache'><key name='dir'/></sectiontype>", "order": order},
+                            signature="C12:import-src-redefinition:accepted")
     finally:
         pk.close()
     return core.finish(ctx, obligations, discharged, names, RULE,
